@@ -37,6 +37,17 @@ CHECKS = {
         note="Trusted: import-time facts of fickling.hook are read from the live import; reading of 'protection in force' and of "
              "'enter context' as construct+enter is stated in DESIGN C12; what the dispatched loaders do is C02/C07.",
         ref="§C12"),
+    "C09": dict(
+        text="Proof: every opcode class's run (61 classes; the StackSliceOpcode wrapper and the wrapped runs separately, modularly) is verified "
+             "against a contract instantiated from pickletools' stack_before/stack_after and the 4-line memo table: for every symbolic stack "
+             "(any depth, any mark positions) and memo, a normal exit leaves the stack shape and memo key set the VM's effect prescribes. "
+             "Mark-scanning loops are cut at the invariant entry == stack ++ tail, NM(tail); Interpreter.step/run/to_ast and Trace.run are "
+             "verified against frame contracts, Trace.run additionally against passivity obligations (writes only objects it allocated, one "
+             "step() and one on_opcode(that opcode) per iteration, returns to_ast()).",
+        note="Trusted: pickletools' table is the VM's stack effect (flat-stack reading); ownership assumption private(...) backed by syntactic "
+             "encapsulation obligations; ground instances of the sequence rule library (Lean-proved); refutations are replayed by stepping "
+             "pickle._Unpickler and fickling side by side (replay/shape_diff.py); per-opcode obligations are the inductive step over program prefixes.",
+        ref="§C09"),
 }
 NA_REASON = "check not built yet (work in progress; see DESIGN.md)"
 
